@@ -140,7 +140,13 @@ impl Storage {
         Ok(&self.snaps.front().unwrap().snap)
     }
     pub fn new_builder(&mut self) -> Builder {
-        self.free.pop().unwrap_or_default().recycle()
+        let mut snap = self.free.pop().unwrap_or_default();
+        if let Some(newest) = self.snaps.front() {
+            // Number the extended item types like the previous snapshot did:
+            // `Delta::create` compares items by their raw type ID.
+            snap.clone_from(&newest.snap);
+        }
+        snap.recycle()
     }
     pub fn set_delta_tick<W>(&mut self, warn: &mut W, tick: i32) -> Result<(), UnknownSnap>
     where
